@@ -214,7 +214,7 @@ static void sim_free(void* p) {
 bool in_arena(const void* p) { return (uintptr_t)p >= ARENA_BASE && (uintptr_t)p < ARENA_BASE + ARENA_SIZE; }
 
 void begin_run(const Config& cfg) {
-	if (!g_mapped) map_arena();
+	if (!g_mapped && !cfg.passthrough) map_arena();
 	g_cfg = cfg; g_st = Stats(); g_fp = 0xcbf29ce484222325ull;
 	g_rng = cfg.layout_seed * 0x9e3779b97f4a7c15ull + 0x1234567;
 	g_nrng = cfg.noise_seed * 0xd1342543de82ef95ull + 0x7654321;
